@@ -4,6 +4,7 @@
 #include "vh_alloc.h"
 #define VH_WITH_ALLOC 1
 #define VH_NO_ROOT_LEAF 1   // the XML archive has no scalar root value
+#define VH_CSTR_KEYS 1
 #include "vh_script.h"
 #include "bitserializer/pugixml_archive.h"
 
